@@ -108,6 +108,9 @@ void h__consume(void)
     if (r) { H_END(); } else { H_END(); }
 }
 
+/* copies of the inputs, so that a counterexample trace shows them (used by the native replay) */
+uint8_t vc_wit_a[8], vc_wit_b[8]; size_t vc_wit_an, vc_wit_bn; int vc_wit_flag;
+
 void h__parse_integer(void)
 {
     bbuf *d = malloc(sizeof(*d)); int64_t *v = malloc(sizeof(*v)); _Bool c = nondet_bool();
@@ -115,6 +118,8 @@ void h__parse_integer(void)
     __CPROVER_assume(d->bsize >= 1 && d->bsize <= 8);
     d->bptr = malloc(d->bsize);
     __CPROVER_assume(d->bptr != NULL);
+    vc_wit_an = d->bsize; vc_wit_flag = c;
+    for (size_t i = 0; i < 8; i++) { vc_wit_a[i] = (i < d->bsize) ? d->bptr[i] : 0; }
     bool r = _parse_integer(d, v, c);
     if (r) { H_END(); } else { H_END(); }
 }
@@ -227,8 +232,14 @@ static bbuf *mk_bbuf(size_t maxlen)
 
 void h__cmp_name(void)
 {
+#ifdef VC_SMALL_WITNESS
+    bbuf *a = mk_bbuf(8), *b = mk_bbuf(8);          /* search for a counterexample small enough to replay natively */
+#else
     bbuf *a = mk_bbuf(VC_MAX_NAME), *b = mk_bbuf(VC_MAX_NAME);
+#endif
     vc_j = nondet_size_t();
+    vc_wit_an = a->bsize; vc_wit_bn = b->bsize;
+    for (size_t i = 0; i < 8; i++) { vc_wit_a[i] = (i < a->bsize) ? a->bptr[i] : 0; vc_wit_b[i] = (i < b->bsize) ? b->bptr[i] : 0; }
     int r = _cmp_name(a, b);
     if (r < 0) { H_END(); } else if (r == 0) { H_END(); } else { H_END(); }
 }
@@ -312,4 +323,24 @@ void h_binson_parser_string_equals(void)
     vc_j = nondet_size_t();
     bool r = binson_parser_string_equals(parser, mk_cstr());
     if (r) { H_END(); } else { H_END(); }
+}
+
+/* BOUNDED companion of the _cmp_name contract: both names at most 8 bytes, CBMC's own memcmp model
+ * (no stand-in), result compared with the bytewise definition written out here. Gives replayable
+ * counterexamples; the unbounded statement is the contract above. */
+void h__cmp_name_direct(void)
+{
+    bbuf *a = mk_bbuf(8), *b = mk_bbuf(8);
+    vc_wit_an = a->bsize; vc_wit_bn = b->bsize;
+    for (size_t i = 0; i < 8; i++) { vc_wit_a[i] = (i < a->bsize) ? a->bptr[i] : 0; vc_wit_b[i] = (i < b->bsize) ? b->bptr[i] : 0; }
+    int r = _cmp_name(a, b);
+    int e = 0;
+    size_t m = (a->bsize < b->bsize) ? a->bsize : b->bsize;
+    for (size_t i = 0; i < m && e == 0; i++) {
+        if (a->bptr[i] != b->bptr[i]) { e = (a->bptr[i] < b->bptr[i]) ? -1 : 1; }
+    }
+    if (e == 0) { e = (a->bsize < b->bsize) ? -1 : (a->bsize > b->bsize) ? 1 : 0; }
+    __CPROVER_assert((r < 0) == (e < 0) && (r == 0) == (e == 0),
+                     "names compare bytewise as unsigned bytes over their full length, shorter first on a tie");   /*@ B/cmp-bytewise */
+    __CPROVER_assert(0, "vacuity control: harness end reachable");
 }
